@@ -55,6 +55,7 @@ type Net struct {
 	Tap func(e *Envelope)
 	// DialErr, if it returns an error, makes NewStream from->to fail (unreachable peer).
 	DialErr func(from, to peer.ID) error
+	closed  map[linkKey]bool // links whose connections were closed (see netw.go)
 }
 
 // New returns an empty network.
@@ -97,6 +98,7 @@ type Host struct {
 	mu       sync.Mutex
 	handlers []handlerEntry
 	down     bool
+	nw       *netw
 }
 
 func (h *Host) ID() peer.ID { return h.id }
@@ -149,6 +151,7 @@ func (h *Host) NewStream(ctx context.Context, p peer.ID, pids ...protocol.ID) (n
 	if remote == nil {
 		return nil, errDial
 	}
+	h.net.redial(h.id, p)
 	for _, pid := range pids {
 		if remote.lookup(pid) != nil {
 			return &clientStream{h: h, to: p, proto: pid, resp: make(chan []byte, 4), closed: make(chan struct{})}, nil
@@ -163,6 +166,7 @@ func (h *Host) NewStream(ctx context.Context, p peer.ID, pids ...protocol.ID) (n
 // has returned.
 func (n *Net) Inject(from, to peer.ID, proto protocol.ID, payload []byte, delay time.Duration) <-chan []byte {
 	resp := make(chan []byte, 1)
+	n.redial(from, to)
 	n.deliverRequest(&Envelope{From: from, To: to, Proto: proto, Payload: payload}, delay, func(b []byte) {
 		select {
 		case resp <- b:
